@@ -12,7 +12,7 @@ def Fresh (p : Proc) : Prop := QuiescentS p.disk ∧ p.frozen = none
 
 /-! ### fresh states -/
 def fresh_view_stmt : Prop := ∀ p, Fresh p → view p = absLog p.disk
-def fresh_inv_stmt : Prop := ∀ p, Fresh p → FInv p
+def fresh_inv_stmt : Prop := ∀ p, Fresh p → FInvS p
 def init_fresh_stmt : Prop := ∃ p, Fault.init = some p ∧ Fresh p ∧ view p = []
 /-- without a fault, on a fresh state, a call does exactly what Model.Crash says it does, and returns nil -/
 def no_fault_agrees_stmt : Prop :=
@@ -22,7 +22,7 @@ def no_fault_agrees_stmt : Prop :=
 
 /-! ### one call, at most one failing action -/
 def finv_call_stmt : Prop :=
-  ∀ p, FInv p → ∀ op, OkV (view p) op → ∀ k wf, FInv (runOp p op k wf).1
+  ∀ p, FInvS p → ∀ op, OkV (view p) op → ∀ k wf, FInvS (runOp p op k wf).1
 
 /-- what readers of the running process see changes exactly when the call returns nil, and then as specified -/
 def call_view_stmt : Prop :=
@@ -37,12 +37,14 @@ def call_disklog_stmt : Prop :=
     ((runOp p op k wf).2 = false ∧ absLog (runOp p op k wf).1.disk = specApply (view p) op) ∨
     absLog (runOp p op k wf).1.disk = (if (runOp p op k wf).2 then specApply (absLog p.disk) op else absLog p.disk)
 
-/-! ### restart -/
-def restart_total_stmt : Prop := ∀ p, FInv p → ∃ p', restart p = some p' ∧ Fresh p'
-def restart_view_stmt : Prop := ∀ p, FInv p → ∀ p', restart p = some p' → view p' = absLog p.disk
+/-! ### restart  (first stated for `FInv`: refuted — `restart_total_refuted`, `restart_view_refuted` in FaultLemmasD3) -/
+def restart_total_stmt0 : Prop := ∀ p, FInv p → ∃ p', restart p = some p' ∧ Fresh p'
+def restart_view_stmt0 : Prop := ∀ p, FInv p → ∀ p', restart p = some p' → view p' = absLog p.disk
+def restart_total_stmt : Prop := ∀ p, FInvS p → ∃ p', restart p = some p' ∧ Fresh p'
+def restart_view_stmt : Prop := ∀ p, FInvS p → ∀ p', restart p = some p' → view p' = absLog p.disk
 
 /-! ### histories -/
-def epoch_inv_stmt : Prop := ∀ p0 h p, Fresh p0 → Epoch p0 h p → FInv p
+def epoch_inv_stmt : Prop := ∀ p0 h p, Fresh p0 → Epoch p0 h p → FInvS p
 /-- **(a), (b) in the running process**: readers see exactly the calls that returned nil, whatever failed in between -/
 def epoch_view_stmt : Prop := ∀ p0 h p, Fresh p0 → Epoch p0 h p → view p = replay (view p0) h
 /-- **(a), (c) after a clean restart**: Open succeeds, leaves a fresh process, and the log it recovers is the history with
